@@ -666,7 +666,11 @@ def get_bs_cached(Rmax, order=2, odd=False, direction='inverse', reg=None,
     else:  # 'inverse'
         if _tri_prm != [reg]:
             _tri_prm = None  # (invalid until the new matrices are ready)
-            if reg is None:
+            # zero strength means no regularization (and the regularized
+            # expressions are singular if some radii have no data)
+            if reg is None or (np.ndim(reg) == 1 and len(reg) == 2 and
+                               reg[0] in ('L2', 'diff', 'SVD') and
+                               reg[1] == 0):
                 # calculate full inverse matrices, if not yet
                 if _tri_full is None:
                     if verbose:
